@@ -9,14 +9,16 @@ Conventions as in Ymq/Model/SiqsPoly.lean: `none` = a panic site of the checked 
 (maximal number of iterations of the sampling loop) running out, which stands for a loop that does
 not terminate.  The generator is part of the code (fixed seed), so the model is deterministic and is
 compared with the real functions directly.  `BTreeSet<Uint>` is a strictly increasing list.
-`slice::sort_by_key` is stable (`List.mergeSort`).  `a_tolerance_divisor` is the translated function
-of Ymq/Gen/Params.lean.  No Mathlib import.
+`slice::sort_by_key` is stable (`stableSort`, a structural merge sort).  `a_tolerance_divisor` is the translated function
+of Ymq/Gen/Params.lean; seed, shifts and loop constants come from Ymq/Gen/SiqsSel.lean (translate/siqssel.py).  No Mathlib import.
 -/
 import Ymq.Model.SiqsPoly
 import Ymq.Gen.Params
+import Ymq.Gen.SiqsSel
 
 namespace Ymq.SiqsSelect
 open Ymq.SiqsPoly (Prime isType2 isqrt bitlen)
+open Ymq.Gen.SiqsSel
 
 /-- 2^64 -/
 def W64 : Nat := 18446744073709551616
@@ -27,7 +29,7 @@ def U256 : Nat := 11579208923731619542357098500868790785326998466564056403945758
 /-- the target of `select_siqs_factors`: `max(2000, isqrt(|n| >> 1 or |n| << 1) / (mm / 2))` -/
 def target (n : Int) (mm : Nat) : Option Nat :=
   if mm / 2 = 0 then none                                         -- division by zero
-  else some (max 2000 ((if isType2 n then isqrt (n.natAbs / 2) else isqrt (n.natAbs * 2)) / (mm / 2)))
+  else some (max targetFloor ((if isType2 n then isqrt (n.natAbs / 2) else isqrt (n.natAbs * 2)) / (mm / 2)))
 
 /-- `fb.primes.partition_point(|&p| p^nfacs < target)` for an increasing list of primes -/
 def partitionPoint (fb : List Prime) (nfacs tgt : Nat) : Nat :=
@@ -79,17 +81,35 @@ def dedup : List Nat → List Nat
   | [x] => [x]
   | x :: y :: rest => if x = y then dedup (y :: rest) else x :: dedup (y :: rest)
 
+/-- merge of two sorted lists, taking from the left on ties (`fuel` ≥ total length) -/
+def mergeF (le : Nat → Nat → Bool) : Nat → List Nat → List Nat → List Nat
+  | 0, a, b => a ++ b
+  | _ + 1, [], b => b
+  | _ + 1, a, [] => a
+  | f + 1, x :: xs, y :: ys =>
+    if le x y then x :: mergeF le f xs (y :: ys) else y :: mergeF le f (x :: xs) ys
+
+/-- stable merge sort (`fuel` ≥ length): the result of any stable sort (`slice::sort_by_key`, `sort`) -/
+def sortF (le : Nat → Nat → Bool) : Nat → List Nat → List Nat
+  | 0, l => l
+  | f + 1, l =>
+    if l.length ≤ 1 then l
+    else mergeF le l.length (sortF le f (l.take (l.length / 2))) (sortF le f (l.drop (l.length / 2)))
+
+def stableSort (le : Nat → Nat → Bool) (l : List Nat) : List Nat := sortF le l.length l
+
 /-- closest `want` values to the target, in increasing order:
 `sort_by_key(|c| c.abs_diff(target)); dedup(); truncate(want); sort()` -/
 def closest (tgt want : Nat) (cands : List Nat) : List Nat :=
-  (((dedup (cands.mergeSort fun x y => absDiff x tgt ≤ absDiff y tgt)).take want).mergeSort fun x y => x ≤ y)
+  stableSort (fun x y => x ≤ y)
+    ((dedup (stableSort (fun x y => absDiff x tgt ≤ absDiff y tgt) cands)).take want)
 
 /-- the branch `f.nfacs <= 5 && f.target.bits() <= 66` -/
 def selectSmall (tgt nfacs want : Nat) (ps : List Nat) : Option (List Nat) :=
   match ps with
   | [] => none                                                    -- f.factors[0]
   | p0 :: _ =>
-    if ¬ (bitlen tgt < 60 ∨ p0 > 100) then none                   -- assert!
+    if ¬ (bitlen tgt < smallTBits ∨ p0 > smallP0) then none                   -- assert!
     else if ps.length < nfacs then none                           -- fl - f.nfacs underflows
     else if nfacs < 2 then some []                                -- nothing is pushed for a single factor
     else some (closest tgt want (combos nfacs 0 1 ps))
@@ -98,12 +118,9 @@ def selectSmall (tgt nfacs want : Nat) (ps : List Nat) : Option (List Nat) :=
 
 /-- one step of the generator: `rng ^= rng << 13; rng ^= rng >> 17; rng ^= rng << 5` (`u64`) -/
 def xorshift (rng : Nat) : Nat :=
-  let r := rng ^^^ ((rng <<< 13) % W64)
-  let r := r ^^^ (r >>> 17)
-  r ^^^ ((r <<< 5) % W64)
-
-/-- the seed `0xcafebeefcafebeef` -/
-def seed : Nat := 14627338576858103535
+  let r := rng ^^^ ((rng <<< shiftA) % W64)
+  let r := r ^^^ (r >>> shiftB)
+  r ^^^ ((r <<< shiftC) % W64)
 
 /-- `while mask.count_ones() < nfacs - 1 { let g = gen(); … }`: draws until `need` more primes are marked;
 returns `(rng, mask as a list of marked indices, product)` -/
@@ -158,13 +175,13 @@ def sampleLoop (tgt nfacs want : Nat) (ps : List Nat) :
     Nat → Nat → Nat → Nat → List Nat → Option (List Nat)
   | 0, _, _, _, _ => none                                         -- does not terminate within the fuel
   | fuel + 1, iters, rng, div, cands =>
-    if ¬ (iters < 1000 * want ∨ cands.length < want) then
+    if ¬ (iters < loopIters * want ∨ cands.length < want) then
       some (closest tgt want cands)                               -- "should not happen" exit
     else
       let iters := iters + 1
       if want = 0 then none                                       -- iters % (100 * want)
       else
-        let div := if iters % (100 * want) = 0 ∧ cands.length < want then max div 1 - 1 else div
+        let div := if iters % (widenEvery * want) = 0 ∧ cands.length < want then max div 1 - 1 else div
         let (amin, amax) := tolWindow tgt div
         if ps.length > 64 then none                               -- 1 << g for g in 0..fb
         else
@@ -185,7 +202,7 @@ def sampleLoop (tgt nfacs want : Nat) (ps : List Nat) :
                   match tryJ ps mask prod amin amax js cands with
                   | none => none
                   | some cands =>
-                    if cands.length > 2 * want ∧ iters % 10 = 0 then some (closest tgt want cands)
+                    if cands.length > earlyMult * want ∧ iters % earlyEvery = 0 then some (closest tgt want cands)
                     else sampleLoop tgt nfacs want ps fuel iters rng div cands
 
 /-- `select_a(f, want)`; `ps` = the primes of `f.factors`; `fuel` = iterations allowed to the sampling loop -/
@@ -196,7 +213,7 @@ def selectA (n : Int) (tgt nfacs want : Nat) (ps : List Nat) (fuel : Nat) : Opti
     | none => none
     | some div =>
       if div < 3 then none                                        -- assert!(div >= 3)
-      else if nfacs ≤ 5 ∧ bitlen tgt ≤ 66 then selectSmall tgt nfacs want ps
+      else if nfacs ≤ smallNf ∧ bitlen tgt ≤ smallBits then selectSmall tgt nfacs want ps
       else sampleLoop tgt nfacs want ps fuel 0 seed div []
 
 end Ymq.SiqsSelect
